@@ -163,7 +163,11 @@ func (d *Decoder) readTypedMap() (interface{}, error) {
 	}
 	mType, ok := d.typMap[typ]
 	if !ok {
-		return nil, newCodecError("ReadType", "no type map for %v", typ)
+		if d.skipDepth == 0 {
+			return nil, newCodecError("ReadType", "no type map for %v", typ)
+		}
+		// the map belongs to an unknown field and is dropped anyway
+		mType = reflect.TypeOf(map[interface{}]interface{}{})
 	}
 
 	var mValue reflect.Value
